@@ -17,21 +17,81 @@ import (
 // a || b; return !ret`) get the same signature; a body that computes another function of the atoms
 // (a tautology after a slipped negation, a dropped disjunct) does not. ok=false when the function
 // is not of that shape (loops, more than 10 atoms, non-boolean result).
-func predicateTable(fn *ssa.Function) (sig string, ok bool) {
-	if fn == nil || len(fn.Blocks) == 0 || fn.Signature.Results().Len() != 1 {
+func predicateTable(fn *ssa.Function) (sig string, ok bool) { return decisionTable(fn, false) }
+
+// decisionTable is predicateTable generalised to functions that return an error: the "result" is
+// "returns nil". A test `len(x) == 0` / `len(x) != 0` on a slice that the function itself only
+// grows with append (the usual "collect problems, fail if any" idiom) is not an atom: on a path it is
+// true exactly when no append was executed.
+func decisionTable(fn *ssa.Function, nilError bool) (sig string, ok bool) {
+	atoms, table, ok := decisionTableRaw(fn, nilError)
+	if !ok {
 		return "", false
 	}
-	if b, isB := fn.Signature.Results().At(0).Type().Underlying().(*types.Basic); !isB || b.Kind() != types.Bool {
-		return "", false
+	return fmt.Sprintf("atoms=[%s] table=%s", strings.Join(atoms, " ; "), table), true
+}
+
+// decisionTableRaw returns the sorted atoms and the truth table (row i: bit k of i is the value of
+// atom k).
+func decisionTableRaw(fn *ssa.Function, nilError bool) (atomsOut []string, tableOut string, ok bool) {
+	if fn == nil || len(fn.Blocks) == 0 || fn.Signature.Results().Len() != 1 {
+		return nil, "", false
+	}
+	if !nilError {
+		if b, isB := fn.Signature.Results().At(0).Type().Underlying().(*types.Basic); !isB || b.Kind() != types.Bool {
+			return nil, "", false
+		}
+	}
+	isLenTest := func(v ssa.Value) (empty bool, ok bool) {
+		bo, isB := v.(*ssa.BinOp)
+		if !isB || (bo.Op != token.EQL && bo.Op != token.NEQ && bo.Op != token.GTR) {
+			return false, false
+		}
+		c, isC := bo.X.(*ssa.Call)
+		if !isC {
+			return false, false
+		}
+		bi, isBi := c.Call.Value.(*ssa.Builtin)
+		if !isBi || bi.Name() != "len" {
+			return false, false
+		}
+		if k, isK := constInt(bo.Y); !isK || k != 0 {
+			return false, false
+		}
+		if _, isSl := c.Call.Args[0].Type().Underlying().(*types.Slice); !isSl {
+			return false, false
+		}
+		// the slice must be local (a phi / append result / empty literal), not a parameter or field
+		switch c.Call.Args[0].(type) {
+		case *ssa.Phi, *ssa.Call, *ssa.Slice:
+		default:
+			return false, false
+		}
+		return bo.Op == token.EQL, true
 	}
 	for _, b := range fn.Blocks {
 		for _, pr := range b.Preds {
 			if b.Dominates(pr) {
-				return "", false // loop
+				return nil, "", false // loop
 			}
 		}
 	}
-	atomKey := map[ssa.Value]string{}
+	type akey struct {
+		k   string
+		neg bool
+	}
+	atomKey := map[ssa.Value]akey{}
+	// comparisons with == / != are one atom "A == B" (operands sorted), negated for !=
+	canon := func(v ssa.Value) akey {
+		if bo, ok := v.(*ssa.BinOp); ok && (bo.Op == token.EQL || bo.Op == token.NEQ) {
+			a, b := renderValueDeep(bo.X), renderValueDeep(bo.Y)
+			if a > b {
+				a, b = b, a
+			}
+			return akey{a + " == " + b, bo.Op == token.NEQ}
+		}
+		return akey{renderValueDeep(v), false}
+	}
 	var atoms []string
 	seenAtom := map[string]bool{}
 	var collect func(v ssa.Value, d int)
@@ -53,11 +113,14 @@ func predicateTable(fn *ssa.Function) (sig string, ok bool) {
 			}
 			return
 		}
-		k := renderValueDeep(v)
+		if _, isLen := isLenTest(v); isLen {
+			return
+		}
+		k := canon(v)
 		atomKey[v] = k
-		if !seenAtom[k] {
-			seenAtom[k] = true
-			atoms = append(atoms, k)
+		if !seenAtom[k.k] {
+			seenAtom[k.k] = true
+			atoms = append(atoms, k.k)
 		}
 	}
 	for _, b := range fn.Blocks {
@@ -65,14 +128,14 @@ func predicateTable(fn *ssa.Function) (sig string, ok bool) {
 			collect(ifi.Cond, 0)
 		}
 		if len(b.Instrs) > 0 {
-			if ret, isR := b.Instrs[len(b.Instrs)-1].(*ssa.Return); isR {
+			if ret, isR := b.Instrs[len(b.Instrs)-1].(*ssa.Return); isR && !nilError {
 				collect(ret.Results[0], 0)
 			}
 		}
 	}
 	sort.Strings(atoms)
-	if len(atoms) > 10 {
-		return "", false
+	if len(atoms) > 12 {
+		return nil, "", false
 	}
 	idx := map[string]int{}
 	for i, a := range atoms {
@@ -81,8 +144,12 @@ func predicateTable(fn *ssa.Function) (sig string, ok bool) {
 	var table strings.Builder
 	for mask := 0; mask < 1<<len(atoms); mask++ {
 		phiVal := map[*ssa.Phi]bool{}
+		appended := false
 		var eval func(v ssa.Value) (bool, bool)
 		eval = func(v ssa.Value) (bool, bool) {
+			if empty, isLen := isLenTest(v); isLen {
+				return empty == !appended, true
+			}
 			switch x := v.(type) {
 			case *ssa.Const:
 				return constBool(x)
@@ -99,7 +166,7 @@ func predicateTable(fn *ssa.Function) (sig string, ok bool) {
 			if !ok {
 				return false, false
 			}
-			return mask&(1<<idx[k]) != 0, true
+			return (mask&(1<<idx[k.k]) != 0) != k.neg, true
 		}
 		cur, prev := fn.Blocks[0], (*ssa.BasicBlock)(nil)
 		res, done := false, false
@@ -118,23 +185,32 @@ func predicateTable(fn *ssa.Function) (sig string, ok bool) {
 						if r, ok := eval(ph.Edges[i]); ok {
 							phiVal[ph] = r
 						} else {
-							return "", false
+							return nil, "", false
 						}
 					}
+				}
+			}
+			for _, in := range cur.Instrs {
+				if c, isC := in.(*ssa.Call); isC && isCallTo(c, "builtin", "", "append") {
+					appended = true
 				}
 			}
 			last := cur.Instrs[len(cur.Instrs)-1]
 			switch t := last.(type) {
 			case *ssa.Return:
+				if nilError {
+					res, done = isNilConst(t.Results[0]), true
+					break
+				}
 				r, ok := eval(t.Results[0])
 				if !ok {
-					return "", false
+					return nil, "", false
 				}
 				res, done = r, true
 			case *ssa.If:
 				c, ok := eval(t.Cond)
 				if !ok {
-					return "", false
+					return nil, "", false
 				}
 				prev = cur
 				if c {
@@ -145,11 +221,11 @@ func predicateTable(fn *ssa.Function) (sig string, ok bool) {
 			case *ssa.Jump:
 				prev, cur = cur, cur.Succs[0]
 			default:
-				return "", false
+				return nil, "", false
 			}
 		}
 		if !done {
-			return "", false
+			return nil, "", false
 		}
 		if res {
 			table.WriteByte('1')
@@ -157,7 +233,7 @@ func predicateTable(fn *ssa.Function) (sig string, ok bool) {
 			table.WriteByte('0')
 		}
 	}
-	return fmt.Sprintf("atoms=[%s] table=%s", strings.Join(atoms, " ; "), table.String()), true
+	return atoms, table.String(), true
 }
 
 // conditionHelpers lists the first-party boolean functions whose result directly decides a branch in fn.
